@@ -867,3 +867,117 @@ def run_conststate(prog, ctx=None):
     if matched < len(ref) * 3 // 4:
         raise Broken("CONSTSTATE: only %d of the %d functions of the reference table still exist" % (matched, len(ref)))
     return res
+
+
+def const_interface(prog):
+    """{file:function -> {"ret": sorted constants the function can return (interval analysis: returns whose value is one number),
+                          "args": {"callee#position": sorted constants passed there; "~" when a computed value is passed}}}"""
+    out = {}
+    for f in sorted((g for g in prog.functions.values() if not g.nocfg and not g.file.startswith("examples/")), key=lambda g: (g.file, g.line, g.qn)):
+        rets = set()
+        args = {}
+        has_ret = False
+        for b, i, e in f.elements():
+            if e.get("k") == "ret" and e.get("e") is not None and f.T(f.ret).get("k") in ("int", "bool", "enum"):
+                has_ret = True
+        an = None
+        for b, i, e in f.elements():
+            if e.get("k") == "ret" and e.get("e") is not None and f.T(f.ret).get("k") in ("int", "bool", "enum"):
+                v = cval(e["e"])
+                # `return c ? A : B`: the arms
+                arms = [strip(e["e"], all_casts=True)]
+                consts = []
+                while arms:
+                    x = arms.pop()
+                    if x.get("k") == "cond" and cval(x) is None:
+                        arms += [strip(x["a"], all_casts=True), strip(x["b"], all_casts=True)]
+                    elif cval(x) is not None:
+                        consts.append(int(cval(x)))
+                if v is None and consts:
+                    rets.update(consts)
+                    continue
+                if v is None:
+                    if an is None:
+                        try:
+                            an = Analysis(prog, f).run()
+                        except Exception:
+                            an = False
+                    if an:
+                        r = an.value_at(b.id, i, e["e"])
+                        if r is not None and r.is_const():
+                            v = r.lo
+                if v is not None:
+                    rets.add(int(v))
+            if e.get("k") == "call":
+                nm = callee_name(e)
+                if not nm:
+                    continue
+                for j, a in enumerate(e.get("args", [])):
+                    if f.T(strip(a, all_casts=True).get("t")).get("k") not in ("int", "bool", "enum") and cval(a) is None:
+                        continue
+                    v = cval(a)
+                    args.setdefault("%s#%d" % (nm, j), set()).add(int(v) if v is not None else "~")
+        ent = {}
+        if rets:
+            ent["ret"] = sorted(rets)
+        if args:
+            ent["args"] = {k: sorted(v, key=str) for k, v in args.items()}
+        if ent:
+            out[f.file + ":" + f.qn] = ent
+    return out
+
+
+def run_constiface(prog, ctx=None):
+    """CONSTIFACE (reference table): what a function tells its callers and callees in constants stays told.  Per function of
+    the unchanged tree mustcheck.json records the numbers it can return (interval analysis of every `return`) and, per callee
+    and argument position, the constants it passes.  RET: an error constant (negative) the function returned is still
+    returned by it - a refusal that turned into success or into another code is a different interface; a positive constant
+    that was the only way to say something (`return 2`: the step was read) is kept as long as the function has no computed
+    return.  ARG: where the reference passed only constants at a position and the function still calls that callee there,
+    the values passed now are the same set (a `sizeof` of another member, a flag word replaced by 0)."""
+    import json as _json, os as _os
+    res = Result("CONSTIFACE")
+    ref = _json.load(open(_os.path.join(_os.path.dirname(_os.path.abspath(__file__)), "mustcheck.json"))).get("iface")
+    if not ref:
+        raise Broken("CONSTIFACE: the reference table has no interface constants")
+    now = const_interface(prog)
+    byname = {}
+    for f in prog.functions.values():
+        byname.setdefault(f.file + ":" + f.qn, f)
+    matched = 0
+    for k, ent in sorted(ref.items()):
+        cur = now.get(k)
+        f = byname.get(k)
+        if cur is None or f is None:
+            if f is not None:
+                matched += 1
+            continue
+        matched += 1
+        r0, r1 = set(ent.get("ret", [])), set(cur.get("ret", []))
+        for c in sorted(r0):
+            if c >= 0 and not (c > 0 and len([x for x in r0 if x > 0]) <= 2):
+                continue
+            ok = c in r1
+            if not ok and c > 0:
+                # a computed return may still deliver the value
+                ok = any(e.get("k") == "ret" and e.get("e") is not None and cval(e["e"]) is None for b, i, e in f.elements()) and not r1
+            res.ob("%s:returns %d" % (k.split(":", 1)[1], c), ok, f, f.line,
+                   "" if ok else "%s no longer returns %d; it returns %s now: callers that tell this answer apart get another one (a refusal reported as success, a result code the caller acts on)" % (
+                       f.qn, c, sorted(r1)))
+        for key, vals in sorted(ent.get("args", {}).items()):
+            cv = cur.get("args", {}).get(key)
+            if cv is None:
+                continue
+            if "~" in vals:
+                # computed everywhere in the reference, a constant everywhere now: what the callee was told about the state is gone
+                if vals == ["~"] and "~" not in cv:
+                    res.ob("%s:%s" % (k.split(":", 1)[1], key), False, f, f.line,
+                           "%s passed a computed value as argument %s of %s in the reference tree and passes the constant %s now" % (f.qn, key.split("#")[1], key.split("#")[0], cv))
+                continue
+            ok = set(map(str, cv)) == set(map(str, vals))
+            res.ob("%s:%s" % (k.split(":", 1)[1], key), ok, f, f.line,
+                   "" if ok else "%s passed %s as argument %s of %s in the reference tree and passes %s now" % (
+                       f.qn, vals, key.split("#")[1], key.split("#")[0], cv))
+    if matched < len(ref) * 3 // 4:
+        raise Broken("CONSTIFACE: only %d of the %d functions of the reference table still exist" % (matched, len(ref)))
+    return res
